@@ -111,6 +111,10 @@ type JudgeWant struct {
 	OrigAnnots     map[string]string // C18: every original annotation intact
 	NoUnknown      bool              // C18: no member other than the allowed descriptor members
 	CheckMediaType bool
+	// BlobContent, if set, replaces Digest/Size: the digest is recomputed by the
+	// judge with the hash bound to the key that signed the envelope
+	BlobContent []byte
+	IsBlob      bool
 }
 
 // Judged is the judge's reading of an envelope.
@@ -225,6 +229,15 @@ func Judge(mediaType string, sig []byte, want JudgeWant) (*Judged, error) {
 	}
 	if err := get("annotations", &j.Annots); err != nil {
 		return j, err
+	}
+	if want.IsBlob {
+		// recompute the blob digest with the algorithm the signed digest names
+		alg := digest.Digest(j.Digest).Algorithm()
+		if !alg.Available() || digest.Digest(j.Digest).Validate() != nil {
+			return j, fmt.Errorf("signed digest %q is not a usable digest", j.Digest)
+		}
+		want.Digest = alg.FromBytes(want.BlobContent)
+		want.Size = int64(len(want.BlobContent))
 	}
 	if j.Digest != want.Digest.String() {
 		return j, fmt.Errorf("signed digest %s, artifact digest %s", j.Digest, want.Digest)
